@@ -141,3 +141,62 @@ if __name__ == '__main__':
         p = facts_path(c)
         d = json.load(open(p))
         print('%s: %s  %s  %.1fs' % (c, p, d['stats'], time.time() - t0))
+
+
+def harness_facts(name, lib_rs, repo=REPO, features=('serde1',), extra_dev=None):
+    """Compiles a generated harness crate `name` (path-depending on repo/tarpc) under the driver and returns the
+    path of its fact file.  Cached by (tree hash, source text)."""
+    ensure_driver()
+    tag = 'repo' if os.path.abspath(repo) == os.path.abspath(REPO) else hashlib.sha256(os.path.abspath(repo).encode()).hexdigest()[:10]
+    base = os.path.join(CACHE, 'harness', tag, name)
+    os.makedirs(os.path.join(base, 'src'), exist_ok=True)
+    lock = open(os.path.join(CACHE, 'harness', '.lock-%s-%s' % (tag, name)), 'w')
+    fcntl.flock(lock, fcntl.LOCK_EX)
+    try:
+        h = hashlib.sha256((tree_hash(repo) + '\0' + lib_rs + '\0' + ','.join(features)).encode()).hexdigest()[:24]
+        out_dir = os.path.join(base, 'facts')
+        stamp = os.path.join(base, 'hash')
+        fact = os.path.join(out_dir, name + '.json')
+        if os.path.exists(stamp) and os.path.exists(fact) and open(stamp).read().strip() == h:
+            return fact
+        for p in (fact, stamp):
+            try:
+                os.remove(p)
+            except OSError:
+                pass
+        with open(os.path.join(base, 'Cargo.toml'), 'w') as fh:
+            fh.write('[package]\nname = "%s"\nversion = "0.0.0"\nedition = "2021"\n\n[workspace]\n\n[dependencies]\ntarpc = { path = "%s/tarpc", features = [%s] }\n'
+                     % (name, os.path.abspath(repo), ', '.join('"%s"' % f for f in features)))
+        shutil.copy(os.path.join(repo, 'Cargo.lock'), os.path.join(base, 'Cargo.lock'))
+        with open(os.path.join(base, 'src', 'lib.rs'), 'w') as fh:
+            fh.write(lib_rs)
+        target_dir = os.path.join(base, 'target')
+        fp = os.path.join(target_dir, 'debug', '.fingerprint')
+        if os.path.isdir(fp):
+            for d in os.listdir(fp):
+                if d.startswith(name + '-') or d.startswith('tarpc-') or d.startswith('tarpc-plugins-') or d.startswith('tarpc_plugins-'):
+                    shutil.rmtree(os.path.join(fp, d), ignore_errors=True)
+        env = dict(os.environ)
+        env.update({
+            'LD_LIBRARY_PATH': nightly_sysroot() + '/lib:' + env.get('LD_LIBRARY_PATH', ''),
+            'RUSTFLAGS': '-Zmir-opt-level=0 -Awarnings',
+            'RUSTC_WORKSPACE_WRAPPER': DRIVER,
+            'MIRFACTS_CRATES': name,
+            'MIRFACTS_OUT': out_dir,
+            'MIRFACTS_CONFIG': 'harness',
+            'CARGO_TARGET_DIR': target_dir,
+            'CARGO_NET_OFFLINE': 'true',
+        })
+        env.pop('RUSTC_WRAPPER', None)
+        t0 = time.time()
+        r = subprocess.run(['cargo', '+nightly', 'check', '--offline', '--lib'], cwd=base, env=env, stdout=subprocess.PIPE, stderr=subprocess.STDOUT, text=True)
+        if r.returncode != 0:
+            raise ExtractError('harness crate %s does not build against the tree (cargo exit %d):\n%s' % (name, r.returncode, r.stdout[-4000:]))
+        if not os.path.exists(fact) or os.path.getmtime(fact) < t0 - 1:
+            raise ExtractError('driver did not write facts for harness crate %s' % name)
+        with open(stamp, 'w') as fh:
+            fh.write(h)
+        return fact
+    finally:
+        fcntl.flock(lock, fcntl.LOCK_UN)
+        lock.close()
